@@ -124,6 +124,23 @@ def run_flat(rep, tier, seed, selftest, cfg):
                                "message": msg + " (as the second module of a compilation; alone the case behaves as the rule says)",
                                "how": "bin/check %s --replay <this file>" % prop})
     log("[replay] %d of the cases as the second module of a compilation: %d differ from the rule only there" % (len(sub), n2))
+    # ---- 2a'. the same cases with the whole module on ONE source line ----------------
+    # (line breaks are no part of any rule: the codes reported must be the same multiset as for the one-item-per-line text)
+    common.pvh(["replay-flat", cases2_path, obs2_path], env={"PVH_FLAT_JOINED": "1"})
+    joined = common.read_ndjson(obs2_path)
+    if len(joined) != len(sub):
+        raise common.ToolError("replay (one line) returned %d observations for %d cases" % (len(joined), len(sub)))
+    n3 = 0
+    for i, obsj in zip(sub, joined):
+        a = sorted(d[0] for d in observations[i].get("diags", []))
+        b = sorted(d[0] for d in obsj.get("diags", []))
+        if (a != b or bool(observations[i].get("panic")) != bool(obsj.get("panic"))) and not cfg["compare"](cases[i], observations[i]):
+            n3 += 1
+            rep.violation("flat", canon(cases[i]) + " ^one-line",
+                          {"case": cases[i], "observed": obsj, "observed_one_item_per_line": observations[i], "problem": "layout",
+                           "message": "written on one source line the module is diagnosed with %s, one item per line with %s" % (b, a),
+                           "how": "bin/check %s --replay <this file>" % prop})
+    log("[replay] %d of the cases on one source line: %d are diagnosed differently" % (len(sub), n3))
     for f in (cases2_path, obs2_path):
         if os.path.exists(f):
             os.remove(f)
